@@ -161,7 +161,7 @@ def gen_cases(tier, seed):
                       "table_d": {c: rng.choice(["ignore", "cancel", "abandon"]) for c in TABLE_CONDS if rng.random() < 0.7},
                       "mode": rng.choice(["ack", "unack"]), "closure": rng.random() < 0.5, "imm": rng.random() < 0.5, "size": rng.choice([10, 10, 12, 17]),
                       "seed": seed * 1_000_003 + i, "decouple": rng.choice(["S", "D", None]), "md_lost": rng.random() < 0.2,
-                      "mods": [m for m in MODS if rng.random() < 0.08]})
+                      "mods": [m for m in MODS if rng.random() < 0.08], "pacing": rng.choice([None, None, {"src_calls": 3}, {"src_calls": 6}, {"dst_calls": 3}, {"src_calls": 2, "dst_calls": 2}, {"dst_idle": 2}, {"src_idle": 2, "dst_calls": 2}])})
     # two consecutive transactions on the same handlers (fault state must not leak into the next transaction's fault handling)
     n2 = 600 if tier == "quick" else 20000
     for i in range(n2):
@@ -263,7 +263,7 @@ def run_case(case):
                 # the user re-configures the fault handler table between the two transactions
                 for cond in TABLE_CONDS:
                     w.D.fh.set_handler(ConditionCode[cond], FHC[case["table_d2"].get(cond, DEFAULTS.get(cond, "cancel"))])
-            r = Runner(w, plan=plan, max_expiries=14, max_rounds=800, actions=actions)
+            r = Runner(w, plan=plan, max_expiries=14, max_rounds=800, actions=actions, pacing=case.get("pacing"))
             try:
                 w.put()
                 out = r.run()
